@@ -964,6 +964,17 @@ func specCookieValue(r *http.Request, name string) string {
 	return c.Value
 }
 
+// Exported views of the cookie specification functions, for contracts of OTHER packages (the derived
+// contracts of generated parameter decoders): is the cookie there, is its value well escaped, and
+// the text the decoder delivers.
+func VerifCookiePresent(r *http.Request, name string) bool { return specHasCookie(r, name) }
+func VerifCookieWell(r *http.Request, name string) bool {
+	return wellEscaped(specCookieValue(r, name))
+}
+func VerifCookieText(r *http.Request, name string) string {
+	return pctDecode(specCookieValue(r, name))
+}
+
 //@ func (d *cookieParamDecoder) DecodeArray(f func(d Decoder) error) (err error)
 //@   callback f(d Decoder) log vals d.(constval).v
 //@   requires req: d.req != nil
@@ -1165,6 +1176,7 @@ func deepKey(param string, name string) string { return param + "[" + name + "]"
 //@   modifies e.values[*]
 //@   ensures unset: e.typ == typeNotSet ==> err == nil && (forall k string :: vHas(e.values, k) == old(vHas(e.values, k)) && vSeqEq(e.values[k], old(e.values[k])))
 //@   ensures value: e.typ == typeValue ==> err == nil && vHas(e.values, e.paramName) && vSeqEq(e.values[e.paramName], one1(e.val))
+//@   ensures valueFrame: e.typ == typeValue ==> (forall k string :: k != e.paramName ==> vHas(e.values, k) == old(vHas(e.values, k)) && vSeqEq(e.values[k], old(e.values[k])))
 //@   ensures array: e.typ == typeArray && e.explode ==> err == nil && vSeqEq(e.values[e.paramName], e.items)
 //@   ensures arrRefuse: e.typ == typeArray && !e.explode ==> (err == nil) == (forall k in (0, len(e.items)) :: vTrig(e.items[k]) && noByte(e.items[k], specQueryArraySep(e.style)))
 //@   ensures arrJoined: e.typ == typeArray && !e.explode && err == nil ==> vHas(e.values, e.paramName) && vSeqEq(e.values[e.paramName], one1(joinS(e.items, str1(specQueryArraySep(e.style)))))
